@@ -91,7 +91,7 @@ def fit_adversary(recs, res, exact, clause="OptimalObjective"):
     # third pass: does the witness survive the repetition caps the model computed for itself?
     third = []
     for a in adv:
-        if a["id"] in wit and a["cls"].endswith("Cycles") and a.get("repcaps_obs") and a["mode"] == "edge":
+        if a["id"] in wit and a["cls"].endswith("Cycles") and a.get("repcaps_obs"):     # (caps are named over the graph the model works on: expanded names in node mode)
             c = dict(a)
             c["repcaps"] = a["repcaps_obs"]
             third.append(c)
